@@ -29,6 +29,81 @@ def refusal_oracle(r, tab):
     return None
 
 
+def split_top(s_):
+    """top-level comma split of '[a,b,c]' (strings of this family hold no commas or brackets)"""
+    if not (s_.startswith("[") and s_.endswith("]")):
+        return None
+    out, depth, cur = [], 0, ""
+    inner = s_[1:-1]
+    if inner == "":
+        return []
+    for ch in inner:
+        if ch == "[":
+            depth += 1
+        elif ch == "]":
+            depth -= 1
+        elif ch == "," and depth == 0:
+            out.append(cur); cur = ""; continue
+        cur += ch
+    out.append(cur)
+    return out
+
+
+def rows_family(run, rng, n):
+    """Implementation only (the data model sorts numbers and strings, not rows): a table whose rows are also held by variables.
+    An in-place operation on the TABLE (sort, reverse, resize, deleteAt, pushBack, set) rearranges slots, it does not replace
+    the row objects: when every row is afterwards changed through its own variable, every slot of the table shows the changed
+    row, and a second name of the table shows the same table."""
+    hops = V.build_harness("h_ops", "plain")
+    progs = []
+    for _ in range(n):
+        k = rng.choice([2, 3, 3, 4, 5])
+        keys = rng.sample(range(1, 40), k)
+        if rng.random() < 0.3:
+            keys[1] = keys[0]                                  # equal keys: the second column decides
+        rows = ["r%d = [%d,\"s%d\"%s];" % (i, keys[i], rng.randint(0, 9), ",%d" % rng.randint(0, 5) if k % 2 else "") for i in range(k)]
+        order = rng.sample(range(k), k)
+        t = "t = [%s]; u = t;" % ",".join("r%d" % i for i in order)
+        opk = rng.random()
+        if opk < 0.45:
+            op = "t sort %s;" % rng.choice(["true", "false"])
+        elif opk < 0.6:
+            op = "reverse t;"
+        elif opk < 0.7:
+            op = "t resize %d;" % k
+        elif opk < 0.8:
+            op = "t sort true; t sort false;"
+        elif opk < 0.9:
+            op = "t sort %s; reverse u;" % rng.choice(["true", "false"])
+        else:
+            op = "t deleteAt %d; t pushBack r%d; t sort true;" % (order.index(0), 0)
+        mut = " ".join("r%d pushBack \"m%d\";" % (i, i) for i in range(k))
+        progs.append(" ".join(rows) + " " + t + " " + op + " " + mut + " [t, u, [%s]]" % ",".join("r%d" % i for i in range(k)))
+    rc, out, err = V.run_lines_parallel([hops], ["X\t-\t%s" % V.hx(p_) for p_ in progs], timeout=3000)
+    for p_, o in zip(progs, out):
+        f = o.split(";")
+        rep = {"kind": "rows-keep-identity", "sqf": p_, "impl": o[:600]}
+        if len(f) != 3 or f[2] == "NONE" or f[0] != "-1":
+            run.violation("a table of rows could not be rearranged and printed: " + o[:120], rep)
+            continue
+        val = V.unhx(f[2]).decode("latin-1")
+        parts = split_top(val)
+        if parts is None or len(parts) != 3:
+            run.violation("unexpected result shape: " + val[:120], rep)
+            continue
+        tt, uu, rr = parts
+        rows_now = split_top(rr) or []
+        slots = split_top(tt) or []
+        if tt != uu:
+            rep.update(t=tt, u=uu)
+            run.violation("two names of one table show different contents after an in-place operation: t = %s, u = %s" % (tt[:80], uu[:80]), rep)
+        elif sorted(slots) != sorted(rows_now):
+            rep.update(table=tt, rows=rr)
+            run.violation("after an in-place operation on a table its slots no longer refer to the row arrays they held: the table shows %s, the rows "
+                          "(each changed through its own variable afterwards) are %s" % (tt[:120], rr[:120]), rep)
+    return len(progs)
+
+
 def main(replay=None):
     run = V.Run(PID, "proof")
     rng = run.rng
@@ -130,6 +205,9 @@ def main(replay=None):
             rep["statement"] = cm["sqf"]
             rep["why"] = cm["why"]
             run.violation("implementation and model disagree: " + cm["why"], rep, found_input=False)
+
+    n_rows = rows_family(run, rng, 1200 if thorough else 160)
+    kinds["rows-keep-identity"] = n_rows
 
     for p in problems:
         run.violation("proof obligation not discharged: " + p, {"broken": p, "theorems": run.cov["theorems"]}, found_input=False)
